@@ -7,13 +7,15 @@ package schema
 //
 // Bound: every type node of a stated grammar (15 node shapes) placed at every type position of a small plugin
 // description (property type, list items, map keys, map values, one-of member), positions nested up to depth 2
-// (quick) or 3 (thorough); each accepted description is exercised with 15 fixed inputs through
+// (quick) or 3 (thorough), plus every such description with one key of its type subtree deleted; each accepted
+// description is exercised with 15 fixed inputs through
 // Unserialize / Validate / Serialize / ValidateCompatibility of the step input. A panic anywhere is a failure; an
 // error return is always acceptable.
 
 import (
 	"fmt"
 	"os"
+	"strings"
 	"testing"
 )
 
@@ -60,8 +62,12 @@ func c10Contexts() map[string]func(n map[string]any) map[string]any {
 	return map[string]func(n map[string]any) map[string]any{
 		"property":   func(n map[string]any) map[string]any { return n },
 		"list-items": func(n map[string]any) map[string]any { return map[string]any{"type_id": "list", "items": n} },
-		"map-keys":   func(n map[string]any) map[string]any { return map[string]any{"type_id": "map", "keys": n, "values": str} },
-		"map-values": func(n map[string]any) map[string]any { return map[string]any{"type_id": "map", "keys": str, "values": n} },
+		"map-keys": func(n map[string]any) map[string]any {
+			return map[string]any{"type_id": "map", "keys": n, "values": str}
+		},
+		"map-values": func(n map[string]any) map[string]any {
+			return map[string]any{"type_id": "map", "keys": str, "values": n}
+		},
 		"oneof-member": func(n map[string]any) map[string]any {
 			return map[string]any{"type_id": "one_of_string", "discriminator_field_name": "_type", "types": map[string]any{"x": n}}
 		},
@@ -109,6 +115,33 @@ func c10Inputs() []any {
 	}
 }
 
+// c10Paths: the key paths of a nested description (maps only)
+func c10Paths(m map[string]any, prefix []string) [][]string {
+	var out [][]string
+	for k, v := range m {
+		p := append(append([]string{}, prefix...), k)
+		out = append(out, p)
+		if sub, ok := v.(map[string]any); ok {
+			out = append(out, c10Paths(sub, p)...)
+		}
+	}
+	return out
+}
+
+func c10Delete(m map[string]any, path []string) {
+	for i, k := range path {
+		if i == len(path)-1 {
+			delete(m, k)
+			return
+		}
+		sub, ok := m[k].(map[string]any)
+		if !ok {
+			return
+		}
+		m = sub
+	}
+}
+
 func TestStandinC10Retype(t *testing.T) {
 	depth := 2
 	if os.Getenv("GOVC_TIER") == "thorough" {
@@ -139,11 +172,46 @@ func TestStandinC10Retype(t *testing.T) {
 			}
 		}
 	}
+	// deletion pass: every description above with ONE key of its type subtree deleted (a required child that the
+	// meta-schema forgets to demand shows up as a panic at load or on first use)
+	var dels []cand
+	for _, c := range cands {
+		c := c
+		base := c.ty()
+		for _, path := range c10Paths(base, nil) {
+			path := path
+			dels = append(dels, cand{c.name + " minus " + fmt.Sprint(path), func() map[string]any {
+				t := c.ty()
+				c10Delete(t, path)
+				return t
+			}})
+		}
+	}
+	cands = append(cands, dels...)
 	checked, accepted, failures := 0, 0, 0
+	seenKey := map[string]bool{}
+	unkeyed := 0
 	report := func(format string, a ...any) {
 		failures++
-		if failures <= 20 {
-			fmt.Printf("STANDIN-FAIL C10 "+format+"\n", a...)
+		msg := fmt.Sprintf(format, a...)
+		// failures that are instances of a recorded known finding carry its key (printed once per key)
+		key := ""
+		switch {
+		case strings.Contains(msg, "root object with ID"):
+			key = "missing-root"
+		case strings.Contains(msg, "Referenced object '"):
+			key = "dangling-ref"
+		}
+		if key != "" {
+			if !seenKey[key] {
+				seenKey[key] = true
+				fmt.Println("STANDIN-FAIL C10 key=" + key + " " + msg)
+			}
+			return
+		}
+		unkeyed++
+		if unkeyed <= 20 {
+			fmt.Println("STANDIN-FAIL C10 " + msg)
 		}
 	}
 	for _, c := range cands {
